@@ -593,4 +593,14 @@ def rule_blanks(ctx):
     return r
 
 
-RULES = [rule_blanks, rule_ellipsis, rule_implicit, rule_interleaved, rule_single, rule_canon, rule_ncon]
+def rule_backend(ctx):
+    """Shared with C01-BACKEND / C11 (seed C12_9): `cotengra.einsum` on numpy arrays executes every pairwise step with
+    the library's own matmul-based einsum, so 'returns the same array as numpy' depends on that planner's layouts,
+    reshape guards (size-1 axes are dropped before the matmul and put back by the output reshape) and stage order."""
+    from .c01 import rule_backend as src
+
+    return C.reuse_rule(ctx, src, "C01-BACKEND", "C12-BACKEND",
+                        "the pairwise implementation behind the front end keeps its conventions", lambda i: True, 9)
+
+
+RULES = [rule_backend, rule_blanks, rule_ellipsis, rule_implicit, rule_interleaved, rule_single, rule_canon, rule_ncon]
